@@ -57,9 +57,30 @@ def _ints(rng, n, lo, hi, even=False):
     return 2 * v if even else v
 
 
-def build(cname, sname, kind, rng, order=3, given=None):
+def _wide(rng, n, lo, hi):
+    """even integers of widely separated magnitude: ordinary terms (|v| <= 2*hi), medium ones (2^10..2^25) and
+    'hard-core' ones (odd * 2^34 .. 2^62), i.e. ratios 1e8 .. 1e18 inside one table; all exactly representable"""
+    out = []
+    for _ in range(n):
+        c = rng.random()
+        if c < 0.45: v = 2 * rng.randint(lo, hi)
+        elif c < 0.60: v = rng.choice([-1, 1]) * rng.choice([1, 3, 5]) * 2 ** rng.randint(10, 25)
+        else: v = rng.choice([-1, 1]) * rng.choice([1, 3, 5]) * 2 ** rng.choice([34, 40, 47, 50, 54, 58, 62])
+        out.append(float(v))
+    if n >= 2:
+        # at least one hard-core and one ordinary non-zero term (the first two clusters are usually site and pair)
+        i, j = rng.sample(range(n), 2)
+        out[i] = float(rng.choice([-1, 1]) * rng.choice([1, 3]) * 2 ** rng.choice([47, 54, 58, 62]))
+        out[j] = float(2 * rng.choice([-5, -3, -1, 1, 2, 4, 6]))
+    return np.array(out)
+
+
+def build(cname, sname, kind, rng, order=3, given=None, regime='small'):
     """kind in {'plain', 'jumps', 'vac', 'vacplain'}; returns a Bundle.  `given` = the `build` dict of an earlier
-    bundle: reconstruct exactly that sampler (used by replays)."""
+    bundle: reconstruct exactly that sampler (used by replays).
+    regime 'small': even integers |v| <= 12 (every float sum is exact);
+    regime 'wide' : values n * 2^-q with even integers n spanning up to 62 binary orders of magnitude (float sums
+                    round; the model works on the integers n, comparisons with it use a roundoff tolerance)."""
     from onsager import supercell, cluster
     crys, chem, ccut, jcut, spectator = crystals()[cname]
     superlatt = SUPERLATTS[sname]
@@ -82,21 +103,28 @@ def build(cname, sname, kind, rng, order=3, given=None):
         cexp = ce + vce
     else:
         cexp = ce
-    Ev = np.array(g['Evalues']) if given else _ints(rng, len(cexp) + 1, -6, 6, even=True)
+    if given:
+        regime, q = g.get('regime', 'small'), g.get('qscale', 0)
+    else:
+        q = rng.choice([0, 0, 10, 24]) if regime == 'wide' else 0
+    unit = 2.0 ** (-q)
+    Ev = np.array(g['Evalues']) if given else \
+        (_wide(rng, len(cexp) + 1, -6, 6) * unit if regime == 'wide' else _ints(rng, len(cexp) + 1, -6, 6, even=True))
     KRA = TSval = np.zeros(0)
     if kind in ('plain', 'vacplain'):
         MC = cluster.MonteCarloSampler(sup, socc, cexp, Ev)
     else:
         ts = TSv if kind == 'vac' else TS
-        KRA = np.array(g['KRAvalues']) if given else _ints(rng, len(jn), 0, 6)
-        TSval = np.array(g['TSvalues']) if given else _ints(rng, len(ts), -4, 4)
+        KRA = np.array(g['KRAvalues']) if given else _ints(rng, len(jn), 0, 6) * unit
+        TSval = np.array(g['TSvalues']) if given else _ints(rng, len(ts), -4, 4) * unit
         MC = cluster.MonteCarloSampler(sup, socc, cexp, Ev, chem, jn, KRAvalues=KRA, TSclusters=ts, TSvalues=TSval)
     b = Bundle()
-    b.name = '%s/%s/%s' % (cname, sname, kind)
+    b.name = '%s/%s/%s%s' % (cname, sname, kind, '/wide' if regime == 'wide' else '')
+    b.regime, b.q = regime, q
     b.MC, b.nsites, b.vacancy = MC, nsites, (-1 if vac is None else int(vac))
     b.build = dict(crystal=cname, superlatt_name=sname, superlatt=superlatt.tolist(), kind=kind, order=order,
                    cluster_cutoff=ccut, jump_cutoff=jcut, spectator=list(spectator), socc=socc.tolist(), vacancy=b.vacancy,
-                   Evalues=Ev.tolist(), KRAvalues=KRA.tolist(), TSvalues=TSval.tolist(),
+                   regime=regime, qscale=q, Evalues=Ev.tolist(), KRAvalues=KRA.tolist(), TSvalues=TSval.tolist(),
                    how='onsager.cluster.makeclusters(crys, cluster_cutoff, order) [+ makeVacancyClusters], '
                        'crys.jumpnetwork(0, jump_cutoff), makeTSclusters; ClusterSupercell(crys, superlatt, spectator) '
                        '[.addvacancy(vacancy)]; MonteCarloSampler(sup, socc, clusters, Evalues, 0, jumpnetwork, KRAvalues, '
@@ -126,7 +154,7 @@ def tables_changed(MC, b):
     """None, or the name of a table of MC that no longer equals the exported one"""
     rows = [[int(m) for m in MC.siteinteract[i][:MC.Ninteract[i]]] for i in range(len(MC.Ninteract))]
     if rows != b.rows: return 'siteinteract'
-    if [float(v) for v in MC.interactvalue] != [float(v) for v in b.values]: return 'interactvalue'
+    if [float(v) * 2.0 ** getattr(b, 'q', 0) for v in MC.interactvalue] != [float(v) for v in b.values]: return 'interactvalue'
     if int(MC.Nenergy) != b.nenergy: return 'Nenergy'
     if b.jumps is not None and ([(int(i), int(j)) for (i, j), dx in MC.jumps] != b.jumps or
                                 [int(x) for x in MC.interactrange] != b.irange): return 'jumps'
@@ -137,11 +165,14 @@ def export(b):
     """Table of the real sampler in the model's terms + the structural assumptions the model makes."""
     MC = b.MC
     b.rows = [[int(m) for m in MC.siteinteract[i][:MC.Ninteract[i]]] for i in range(len(MC.Ninteract))]
-    vals = [float(v) for v in MC.interactvalue]
+    from fractions import Fraction
+    q = getattr(b, 'q', 0)
+    vals = [Fraction(float(v)) * 2 ** q for v in MC.interactvalue]     # exact
     b.problems = []
-    if not all(v.is_integer() for v in vals):
-        b.problems.append('interaction values are not integers (harness construction)')
-    b.values = [int(round(v)) for v in vals]
+    if not all(v.denominator == 1 for v in vals):
+        b.problems.append('interaction values are not integer multiples of 2^-%d (harness construction)' % q)
+    b.values = [int(v) for v in vals]
+    b.absvalues = np.array([abs(float(v)) for v in b.values])
     b.nenergy = int(MC.Nenergy)
     nint = len(b.values)
     if len(b.rows) != b.nsites: b.problems.append('siteinteract has %d rows for %d sites' % (len(b.rows), b.nsites))
@@ -182,6 +213,13 @@ def err_name(e):
                  (RuntimeError, 'runtime')):
         if isinstance(e, t): return n
     return 'other:' + type(e).__name__
+
+
+def as_scaled_int(x, q):
+    """exact integer n with x == n * 2^-q (x a float energy of a table whose values are multiples of 2^-q)"""
+    from fractions import Fraction
+    f = Fraction(float(x)) * 2 ** q
+    return int(f) if f.denominator == 1 else None
 
 
 def as_int(x):
